@@ -30,8 +30,9 @@ OWNERS = [
     ("nowrap.digital_rf_create_rf_data_index", ("C06", "C01")),
     ("bounds.digital_rf_create_rf_data_index", ("C06", "C01")),
     ("digital_rf_create_rf_data_index.reject_unbounded", ("C05",)),
-    ("digital_rf_get_global_sample.unbounded", ("C01", "C06", "C19")),
-    ("digital_rf_get_global_sample", ("C01", "C06", "C19")),
+    # the block map lookup with which a multi-file call resumes: a wrong value makes a valid call fail half way (C05: atomic refusal)
+    ("digital_rf_get_global_sample.unbounded", ("C01", "C06", "C19", "C05")),
+    ("digital_rf_get_global_sample", ("C01", "C06", "C19", "C05")),
     ("nowrap.digital_rf_get_global_sample", ("C01",)),
     ("bounds.digital_rf_get_global_sample", ("C01",)),
     ("digital_rf_write_rf_data_index", ("C06", "C01")),
